@@ -30,6 +30,7 @@ def _case(draw, max_len):
     case['ndim'] = ndim
     l1, l2 = len(case['s1']), len(case['s2'])
     case['start'] = [draw(st.integers(1, l1)), draw(st.integers(1, l2))]
+    case['penalty_post'] = draw(st.sampled_from([0, 0, 0.5, 1, 2.25]))
     return case
 
 
@@ -204,6 +205,26 @@ def run(case):
                 res_fn = ref.INNER[inner][1]
                 _check_path(res, 'c.customstart', case, path, None, None, end=(r - 1, c - 1),
                             expect_cost=res_fn(rcell))
+    # --- warping_path_penalty: the same optimal path, and its distance plus penalty_post per non-diagonal step;
+    #     warping_amount: the number of those steps
+    pp = case.get('penalty_post', 0)
+    for tag, extra in (('py.warping_path_penalty', {}), ('c.warping_path_penalty(use_c)', {'use_c': True})):
+        got, exc = libcall(dtw.warping_path_penalty, (a1 if extra else p1), (a2 if extra else p2), penalty_post=pp,
+                           use_ndim=(nd > 1), **kw, **extra)
+        if exc:
+            res.fail(tag + ':' + exc, 'warping_path_penalty raised')
+            continue
+        d, path, _steps, _M = got
+        ok = _check_path(res, tag, case, path, None, refd)
+        if ok is not None:
+            nd_steps = sum(1 for a, b in zip(path, path[1:]) if (b[0] - a[0], b[1] - a[1]) != (1, 1))
+            wa, exc = libcall(dtw.warping_amount, path)
+            if exc or wa != nd_steps:
+                res.fail('warping_amount', 'warping_amount=%r (%s) for a path with %d non-diagonal steps: %r'
+                         % (wa, exc, nd_steps, list(path)[:12]))
+            if not ref.close(float(d), refd + pp * nd_steps):
+                res.fail(tag + ':distance', 'reported %r, DTW distance %r + penalty_post %r * %d non-diagonal steps'
+                         % (float(d), refd, pp, nd_steps))
     # --- dtw.warp (no psi)
     if nd == 1 and not any(gen.psi4(case['psi'])):
         wkw = dict(kw)
